@@ -305,8 +305,9 @@ func extractColor(str string, state *ansiState, proc func(string, *ansiState) bo
 		proc(rest, state)
 	}
 	if len(offsets) > 0 {
-		if len(rest) > 0 && state != nil {
-			// Update last offset
+		if state != nil {
+			// Update last offset. It is still open even if nothing follows the
+			// last sequence, when that sequence did not change the state.
 			runeCount += utf8.RuneCountInString(rest)
 			(&offsets[len(offsets)-1]).offset[1] = int32(runeCount)
 		}
